@@ -17,7 +17,70 @@ TAINTED_PARAMS = {"nested_tree", "_path"}
 # ------------------------------------------------------------------------------------------
 # R-TAINT
 # ------------------------------------------------------------------------------------------
+def _collapse(sh):
+    if isinstance(sh, tuple):
+        if sh[0] == "T":
+            return all(_collapse(x) for x in sh[1])
+        return _collapse(sh[1])
+    return bool(sh)
+
+
+def _meet(a, b):
+    if isinstance(a, tuple) and isinstance(b, tuple) and a[0] == b[0]:
+        if a[0] == "T" and len(a[1]) == len(b[1]):
+            return ("T", tuple(_meet(x, y) for x, y in zip(a[1], b[1])))
+        if a[0] == "L":
+            return ("L", _meet(a[1], b[1]))
+    return _collapse(a) and _collapse(b)
+
+
+def _elem(sh):
+    if isinstance(sh, tuple):
+        if sh[0] == "L":
+            return sh[1]
+        out = True
+        for i, x in enumerate(sh[1]):
+            out = x if i == 0 else _meet(out, x)
+        return out
+    return sh
+
+
+def _bind(target, sh, env):
+    if isinstance(target, ast.Name):
+        env[target.id] = sh
+    elif isinstance(target, (ast.Tuple, ast.List)):
+        if isinstance(sh, tuple) and sh[0] == "T" and len(sh[1]) == len(target.elts) and not any(isinstance(x, ast.Starred) for x in target.elts):
+            for t, c in zip(target.elts, sh[1]):
+                _bind(t, c, env)
+        else:
+            c = _collapse(sh)
+            for n in ast.walk(target):
+                if isinstance(n, ast.Name):
+                    env[n.id] = c
+
+
 class Taint:
+    """Cleanliness is tracked per variable; fixed-size tuples and homogeneous lists keep one
+    flag per position / for the elements, so that a table of (schema value, css class, label)
+    rows unpacked in a loop does not smear the schema value's flag over the constants."""
+
+    def shape(self, e, env):
+        if isinstance(e, ast.Tuple) and not any(isinstance(x, ast.Starred) for x in e.elts):
+            return ("T", tuple(self.shape(x, env) for x in e.elts))
+        if isinstance(e, ast.List) and not any(isinstance(x, ast.Starred) for x in e.elts):
+            out = True
+            for i, x in enumerate(e.elts):
+                out = self.shape(x, env) if i == 0 else _meet(out, self.shape(x, env))
+            return ("L", out)
+        if isinstance(e, ast.Name):
+            return env.get(e.id, False)
+        if isinstance(e, (ast.ListComp, ast.GeneratorExp)):
+            env2 = dict(env)
+            for g in e.generators:
+                _bind(g.target, _elem(self.shape(g.iter, env2)), env2)
+            return ("L", self.shape(e.elt, env2))
+        return self.clean(e, env)
+
     def __init__(self, func: FuncInfo):
         self.f = func
         self.violations = []   # (node, hole text)
@@ -30,7 +93,7 @@ class Taint:
         if isinstance(e, ast.JoinedStr):
             return all(self.clean(v.value, env) for v in e.values if isinstance(v, ast.FormattedValue))
         if isinstance(e, ast.Name):
-            return env.get(e.id, False)
+            return _collapse(env.get(e.id, False))
         if isinstance(e, ast.BinOp):
             return self.clean(e.left, env) and self.clean(e.right, env)
         if isinstance(e, ast.IfExp):
@@ -76,13 +139,7 @@ class Taint:
                     return sub.clean(body[-1].value, henv)
             return False
         if isinstance(e, (ast.ListComp, ast.GeneratorExp)):
-            env2 = dict(env)
-            for g in e.generators:
-                c = self.clean(g.iter, env2)
-                for n in ast.walk(g.target):
-                    if isinstance(n, ast.Name):
-                        env2[n.id] = c
-            return self.clean(e.elt, env2)
+            return _collapse(self.shape(e, env))
         return False
 
     def dirty_holes(self, e, env):
@@ -104,6 +161,7 @@ class Taint:
             if p.name not in EXEMPT_PARAMS and p.name not in TAINTED_PARAMS:
                 env[p.name] = False
         self.out_vars = self.output_vars()
+        self.check_return = True
         self.block(f.node.body, env)
 
     def output_vars(self):
@@ -157,8 +215,27 @@ class Taint:
         rec(e)
         return out
 
+    @staticmethod
+    def builds_text(e):
+        """The expression assembles text (a template, a concatenation, a join / format call) rather
+        than merely copying or fetching a value; only such assignments are output sinks - a copied
+        value is tracked in the environment and judged where it is put into a template."""
+        if isinstance(e, ast.JoinedStr):
+            return True
+        if isinstance(e, ast.BinOp):
+            return True
+        if isinstance(e, ast.Call) and isinstance(e.func, ast.Attribute) and e.func.attr in ("join", "format"):
+            return True
+        if isinstance(e, (ast.List, ast.Tuple)):
+            return any(Taint.builds_text(x) for x in e.elts)
+        if isinstance(e, ast.IfExp):
+            return Taint.builds_text(e.body) or Taint.builds_text(e.orelse)
+        return False
+
     def sink(self, node, tgt_name, expr, env):
         if tgt_name not in self.out_vars:
+            return
+        if isinstance(node, ast.Assign) and all(isinstance(t, ast.Name) for t in node.targets) and not self.builds_text(expr):
             return
         holes = self.dirty_holes(expr, env)
         self.sinks.append((node, tgt_name, holes))
@@ -176,14 +253,12 @@ class Taint:
             t = st.targets[0]
             if isinstance(t, ast.Name):
                 self.sink(st, t.id, st.value, env)
-                env[t.id] = self.clean(st.value, env)
-            elif isinstance(t, (ast.Tuple, ast.List)) and all(isinstance(x, ast.Name) for x in t.elts):
-                c = self.clean(st.value, env)
-                for x in t.elts:
-                    env[x.id] = c
+                env[t.id] = self.shape(st.value, env)
+            elif isinstance(t, (ast.Tuple, ast.List)):
+                _bind(t, self.shape(st.value, env), env)
             elif isinstance(t, ast.Subscript) and isinstance(t.value, ast.Name):
                 self.sink(st, t.value.id, st.value, env)
-                env[t.value.id] = env.get(t.value.id, False) and self.clean(st.value, env)
+                env[t.value.id] = _collapse(env.get(t.value.id, False)) and self.clean(st.value, env)
             # chained targets a = b = c = expr
         elif isinstance(st, ast.Assign):
             c = self.clean(st.value, env)
@@ -197,31 +272,37 @@ class Taint:
                 base = base.value
             if isinstance(base, ast.Name):
                 self.sink(st, base.id, st.value, env)
-                env[base.id] = env.get(base.id, False) and self.clean(st.value, env)
+                env[base.id] = _collapse(env.get(base.id, False)) and self.clean(st.value, env)
         elif isinstance(st, ast.Expr) and isinstance(st.value, ast.Call) and isinstance(st.value.func, ast.Attribute) and isinstance(st.value.func.value, ast.Name) and st.value.func.attr in ("append", "extend", "insert"):
             nm = st.value.func.value.id
             arg = st.value.args[-1] if st.value.args else None
             if arg is not None:
                 self.sink(st, nm, arg, env)
-                env[nm] = env.get(nm, False) and self.clean(arg, env)
+                cur = env.get(nm, False)
+                if st.value.func.attr == "append" and isinstance(cur, tuple) and cur[0] == "L":
+                    env[nm] = ("L", _meet(cur[1], self.shape(arg, env)))
+                else:
+                    env[nm] = _collapse(cur) and self.clean(arg, env)
+        elif isinstance(st, ast.Return) and st.value is not None and getattr(self, "check_return", False):
+            holes = self.dirty_holes(st.value, env)
+            self.sinks.append((st, "<return>", holes))
+            for h in holes:
+                self.violations.append((st, "<return>", h))
         elif isinstance(st, ast.If):
             a = self.block(st.body, env)
             b = self.block(st.orelse, env)
-            env = {k: a.get(k, False) and b.get(k, False) for k in set(a) | set(b)}
+            env = {k: _meet(a.get(k, False), b.get(k, False)) for k in set(a) | set(b)}
         elif isinstance(st, (ast.For, ast.While)):
             if isinstance(st, ast.For):
-                c = self.clean(st.iter, env)
-                for n in ast.walk(st.target):
-                    if isinstance(n, ast.Name):
-                        env[n.id] = c
+                _bind(st.target, _elem(self.shape(st.iter, env)), env)
             for _ in range(2):
                 after = self.block(st.body, env)
-                env = {k: env.get(k, False) and after.get(k, False) if k in env else after.get(k, False) for k in set(env) | set(after)}
+                env = {k: _meet(env.get(k, False), after.get(k, False)) if k in env else after.get(k, False) for k in set(env) | set(after)}
         elif isinstance(st, ast.Try):
             a = self.block(st.body, env)
             for h in st.handlers:
                 b = self.block(h.body, env)
-                a = {k: a.get(k, False) and b.get(k, False) for k in set(a) | set(b)}
+                a = {k: _meet(a.get(k, False), b.get(k, False)) for k in set(a) | set(b)}
             env = a
         elif isinstance(st, ast.With):
             env = self.block(st.body, env)
@@ -231,7 +312,7 @@ class Taint:
 def rule_taint(ctx):
     prog = ctx.prog
     r = RuleResult("R-TAINT", floor=10)
-    f = prog.func("schema.write_tree_html")
+    f = prog.flat("schema.write_tree_html")
     t = Taint(f)
     t.run()
     seen = set()
@@ -332,119 +413,210 @@ def _paths(stmts):
             yield [first] + q
 
 
+def _acc_init(st):
+    """(name, [initial element exprs]) when st initialises a string / list accumulator."""
+    if isinstance(st, ast.Assign) and len(st.targets) == 1 and isinstance(st.targets[0], ast.Name):
+        v = st.value
+        if isinstance(v, ast.Constant) and v.value == "":
+            return st.targets[0].id, []
+        if isinstance(v, ast.List):
+            return st.targets[0].id, list(v.elts)
+    return None
+
+
+def _emission(st, acc):
+    """Expressions st appends to accumulator `acc` (None when st does not touch it)."""
+    if isinstance(st, ast.AugAssign) and isinstance(st.target, ast.Name) and st.target.id == acc and isinstance(st.op, ast.Add):
+        if isinstance(st.value, ast.List):
+            return list(st.value.elts)
+        return [st.value]
+    if isinstance(st, ast.Assign) and len(st.targets) == 1 and isinstance(st.targets[0], ast.Name) and st.targets[0].id == acc \
+            and isinstance(st.value, ast.BinOp) and isinstance(st.value.op, ast.Add) and isinstance(st.value.left, ast.Name) and st.value.left.id == acc:
+        return [st.value.right]
+    if isinstance(st, ast.Expr) and isinstance(st.value, ast.Call) and isinstance(st.value.func, ast.Attribute) and isinstance(st.value.func.value, ast.Name) \
+            and st.value.func.value.id == acc and st.value.args:
+        if st.value.func.attr == "append":
+            return [st.value.args[0]]
+        if st.value.func.attr == "extend" and isinstance(st.value.args[0], (ast.List, ast.Tuple)):
+            return list(st.value.args[0].elts)
+        if st.value.func.attr in ("extend", "insert"):
+            return [st.value.args[-1]]
+    return None
+
+
 def rule_balance(ctx):
+    """Every HTML accumulator of the writer (a string grown with `+=` or a list grown with
+    append and joined) holds a fragment whose tags are closed in order on every path through
+    the block that owns it; emitted variables are holes (they are accumulators or templates
+    with their own obligation), variables bound once to a template are substituted.  Templates
+    that are not emitted anywhere must be balanced on their own; concatenations are checked
+    as a whole."""
     prog = ctx.prog
-    r = RuleResult("R-BALANCE", floor=10)
-    f = prog.func("schema.write_tree_html")
+    r = RuleResult("R-BALANCE", floor=8)
+    f = prog.flat("schema.write_tree_html")
     where = f"{f.file}:{f.node.lineno}"
-    child_loop = next((s for s in f.node.body if isinstance(s, ast.For) and norm(s.iter) == "nested_tree"), None)
+    if not f.params:
+        raise AnalysisError("write_tree_html has no parameters")
+    tree_param = f.params[0].name
+    child_loop = next((s for s in ast.walk(f.node) if isinstance(s, ast.For) and norm(s.iter) == tree_param), None)
     if child_loop is None:
-        raise AnalysisError("write_tree_html: loop over nested_tree not found")
-    acc = "child_html"
+        raise AnalysisError("write_tree_html: loop over the tree parameter not found")
 
-    def appended(st):
-        if isinstance(st, ast.AugAssign) and isinstance(st.target, ast.Name) and st.target.id == acc:
-            return st.value
-        if isinstance(st, ast.Assign) and isinstance(st.targets[0], ast.Name) and st.targets[0].id == acc:
-            return st.value
-        return None
-
-    # (1) every path through the per-child body yields a balanced fragment
-    npaths = 0
-    bad = None
-    for p in _paths(child_loop.body):
-        npaths += 1
-        if p and isinstance(p[-1], ast.Continue):
-            continue
-        stack = []
-        for st in p:
-            v = appended(st)
-            if v is None:
-                continue
-            tpl, holes = template_of(v)
-            if tpl is None:
-                continue   # joined lists / recursive call / variables: checked separately
-            stack, err = balance(tokens(tpl), stack)
-            if err is not None:
-                bad = (st, err)
-                break
-        if bad is None and stack:
-            bad = (p[-1], ("unclosed", stack[-1], stack))
-        if bad:
-            break
-    inst = {"per-child body": f"{npaths} paths", "verdict": "balanced" if not bad else f"unbalanced: {bad[1]}"}
-    r.instances.append(inst)
-    if bad:
-        st, err = bad
-        r.fail(Finding("R-BALANCE", f"R-BALANCE|schema.write_tree_html|child|{err[0]}:{err[1]}", f"{f.file}:{st.lineno}",
-                       f"on some path through the per-child body the tags are not closed in order: {err[0]} `{str(err[1]).replace(chr(0), '{}')}` with open stack {[str(s).replace(chr(0), '{}') for s in err[2]]} at `{head(st)[:80]}`", []))
-    else:
-        r.ok()
-    # (2) every other string template of the function is individually balanced (list elements, spans, doc loops, wrapper)
+    # variables bound exactly once to a template
+    assigns = {}
     for n in ast.walk(f.node):
-        if isinstance(n, (ast.JoinedStr, ast.Constant)) and isinstance(getattr(n, "value", None), str) or isinstance(n, ast.JoinedStr):
-            par = getattr(n, "_parent", None)
-            if isinstance(par, (ast.JoinedStr, ast.FormattedValue)):
+        if isinstance(n, ast.Assign) and len(n.targets) == 1 and isinstance(n.targets[0], ast.Name):
+            assigns.setdefault(n.targets[0].id, []).append(n)
+        elif isinstance(n, (ast.AugAssign,)) and isinstance(n.target, ast.Name):
+            assigns.setdefault(n.target.id, []).append(n)
+        elif isinstance(n, ast.For):
+            for x in ast.walk(n.target):
+                if isinstance(x, ast.Name):
+                    assigns.setdefault(x.id, []).append(n)
+    single_tpl = {}
+    for nm, lst in assigns.items():
+        if len(lst) == 1 and isinstance(lst[0], ast.Assign):
+            tpl, _ = template_of(lst[0].value)
+            if tpl is not None and "<" in tpl:
+                single_tpl[nm] = (tpl, lst[0])
+
+    def tpl_of(e):
+        """template text of an emitted expression; '' for holes (variables, joins, calls)."""
+        tpl, _ = template_of(e)
+        if tpl is not None:
+            return tpl
+        if isinstance(e, ast.Name) and e.id in single_tpl:
+            return single_tpl[e.id][0]
+        if isinstance(e, ast.BinOp) and isinstance(e.op, ast.Add):
+            return tpl_of(e.left) + tpl_of(e.right)
+        if isinstance(e, ast.Call) and isinstance(e.func, ast.Attribute) and e.func.attr == "join" and isinstance(e.func.value, ast.Constant) and "<" in str(e.func.value.value):
+            return None
+        return ""
+
+    emitted_nodes = set()
+    used_single = set()
+
+    def note_emitted(e):
+        for x in ast.walk(e):
+            emitted_nodes.add(id(x))
+        if isinstance(e, ast.Name) and e.id in single_tpl:
+            used_single.add(e.id)
+        if isinstance(e, ast.BinOp):
+            for x in ast.walk(e):
+                if isinstance(x, ast.Name) and x.id in single_tpl:
+                    used_single.add(x.id)
+
+    # accumulators: (name, owning block, index of init)
+    accs = []
+    for n in ast.walk(f.node):
+        for fld in ("body", "orelse", "finalbody"):
+            blk = getattr(n, fld, None)
+            if not isinstance(blk, list):
                 continue
-            if isinstance(par, ast.BinOp) and isinstance(par.op, ast.Add):
-                continue
-            tpl, holes = template_of(n)
-            if tpl is None or "<" not in tpl:
-                continue
-            st = n
-            while not isinstance(st, ast.stmt):
-                st = st._parent
-            tgt = None
-            if isinstance(st, ast.AugAssign):
-                tgt = norm(st.target)
-            elif isinstance(st, ast.Assign):
-                tgt = norm(st.targets[0])
-            if tgt == acc:
-                continue
-            if isinstance(par, ast.Call) and norm(par.func) == "re.sub":
-                if n is not par.args[1]:
+            for i, st in enumerate(blk):
+                ini = _acc_init(st) if isinstance(st, ast.stmt) else None
+                if ini is None:
                     continue
-            stack, err = balance(tokens(tpl))
-            inst = {"template": tpl.replace("\x00", "{}")[:90], "assigned to": tgt}
-            r.instances.append(inst)
-            opener = tgt in ("node_html",)
-            if err is None and (not stack or opener):
-                r.ok()
-            else:
-                r.fail(Finding("R-BALANCE", f"R-BALANCE|schema.write_tree_html|{tpl.replace(chr(0), '{}')[:50]}", f"{f.file}:{n.lineno}",
-                               f"the HTML fragment `{tpl.replace(chr(0), '{}')[:90]}` is not balanced on its own ({err or ('unclosed', stack)}) and is not part of the per-child accumulator", []))
-    # (3) concatenated templates appended outside the accumulator (BinOp of templates)
+                name, elts = ini
+                grown = any(_emission(x, name) is not None for y in blk[i + 1:] for x in ast.walk(y) if isinstance(x, ast.stmt))
+                if grown:
+                    accs.append((name, blk, i, elts))
+    n_html = 0
+    for name, blk, i, elts in accs:
+        npaths, bad, undec = 0, None, False
+        has_tags = False
+        for p in _paths(blk[i + 1:]):
+            npaths += 1
+            if npaths > 20000:
+                undec = True
+                break
+            if p and isinstance(p[-1], ast.Continue):
+                continue
+            stack = []
+            seq = [(blk[i], e) for e in elts]
+            for st in p:
+                em = _emission(st, name)
+                if em is not None:
+                    seq += [(st, e) for e in em]
+            for st, e in seq:
+                note_emitted(e)
+                t = tpl_of(e)
+                if t is None:
+                    undec = True
+                    continue
+                if "<" in t:
+                    has_tags = True
+                stack, err = balance(tokens(t), stack)
+                if err is not None:
+                    bad = (st, err)
+                    break
+            if bad is None and stack:
+                bad = (p[-1] if p else blk[i], ("unclosed", stack[-1], stack))
+            if bad:
+                break
+        if not has_tags and not bad:
+            continue
+        n_html += 1
+        inst = {"accumulator": name, "paths": npaths, "verdict": "balanced on every path" if not bad else f"unbalanced: {bad[1]}"}
+        r.instances.append(inst)
+        if bad:
+            st, err = bad
+            r.fail(Finding("R-BALANCE", f"R-BALANCE|schema.write_tree_html|{'child' if any(blk is b for b in (child_loop.body,)) else name}|{err[0]}:{err[1]}", f"{f.file}:{st.lineno}",
+                           f"on some path the tags collected in `{name}` are not closed in order: {err[0]} `{str(err[1]).replace(chr(0), '{}')}` with open stack {[str(x).replace(chr(0), '{}') for x in err[2]]} at `{head(st)[:80]}`", []))
+        elif undec:
+            r.undecided.append(inst)
+        else:
+            r.ok()
+    if n_html == 0:
+        r.undecided.append({"what": "no HTML accumulator recognised in write_tree_html"})
+    # concatenations (outside emissions): balanced as a whole, with single-template variables substituted
     for n in ast.walk(f.node):
-        if isinstance(n, ast.BinOp) and isinstance(n.op, ast.Add) and not isinstance(getattr(n, "_parent", None), ast.BinOp):
-            tpl, holes = template_of(n)
-            if tpl is None or "<" not in tpl:
+        if isinstance(n, ast.BinOp) and isinstance(n.op, ast.Add) and not isinstance(getattr(n, "_parent", None), ast.BinOp) and id(n) not in emitted_nodes:
+            t = tpl_of(n)
+            if t is None or "<" not in t:
                 continue
-            st = n
-            while not isinstance(st, ast.stmt):
-                st = st._parent
-            if appended(st) is not None:
-                continue
-            stack, err = balance(tokens(tpl))
-            inst = {"template": tpl.replace("\x00", "{}")[:90]}
+            for x in ast.walk(n):
+                if isinstance(x, ast.Name) and x.id in single_tpl:
+                    used_single.add(x.id)
+                emitted_nodes.add(id(x))
+            stack, err = balance(tokens(t))
+            inst = {"concatenation": norm(n)[:90], "template": t.replace("\x00", "{}")[:90]}
             r.instances.append(inst)
             if err is None and not stack:
                 r.ok()
             else:
-                r.fail(Finding("R-BALANCE", f"R-BALANCE|schema.write_tree_html|{tpl.replace(chr(0), '{}')[:50]}", f"{f.file}:{n.lineno}", f"fragment `{tpl.replace(chr(0), '{}')[:90]}` is not balanced", []))
-    # (4) wrapper: node_html opens exactly one div, closed by the final literal
-    outs = [n for n in ast.walk(f.node) if isinstance(n, ast.Assign) and norm(n.targets[0]) == "out" and isinstance(n.value, ast.BinOp)]
-    nh = [n for n in ast.walk(f.node) if isinstance(n, ast.Assign) and norm(n.targets[0]) == "node_html"]
-    inst = {"wrapper": [norm(o) for o in outs]}
-    r.instances.append(inst)
-    ok = False
-    if outs and nh:
-        tpl, _ = template_of(nh[0].value)
-        st, err = balance(tokens(tpl or ""))
-        ok = err is None and st == ["div"] and norm(outs[0].value) == "node_html + children_html + '</div>'"
-    if ok:
-        r.ok()
-    else:
-        r.fail(Finding("R-BALANCE", "R-BALANCE|schema.write_tree_html|wrapper", where, "the node wrapper must open one <div> in node_html and close it after the children (`node_html + children_html + '</div>'`)", []))
+                r.fail(Finding("R-BALANCE", f"R-BALANCE|schema.write_tree_html|{t.replace(chr(0), '{}')[:50]}", f"{f.file}:{n.lineno}",
+                               f"the concatenation `{norm(n)[:90]}` yields `{t.replace(chr(0), '{}')[:90]}`, which is not balanced ({err or ('unclosed', stack)})", []))
+    # every other template must be balanced on its own
+    for n in ast.walk(f.node):
+        if isinstance(n, ast.JoinedStr) or (isinstance(n, ast.Constant) and isinstance(n.value, str)):
+            par = getattr(n, "_parent", None)
+            if isinstance(par, (ast.JoinedStr, ast.FormattedValue)):
+                continue
+            if id(n) in emitted_nodes:
+                continue
+            if isinstance(par, ast.BinOp) and isinstance(par.op, ast.Add):
+                continue   # part of a concatenation that was not a template as a whole: holes in between
+            tpl, holes = template_of(n)
+            if tpl is None or "<" not in tpl:
+                continue
+            if isinstance(par, ast.Call) and norm(par.func) == "re.sub":
+                if len(par.args) < 2 or n is not par.args[1]:
+                    continue
+            st = n
+            while not isinstance(st, ast.stmt):
+                st = st._parent
+            tgt = norm(st.targets[0]) if isinstance(st, ast.Assign) else (norm(st.target) if isinstance(st, ast.AugAssign) else None)
+            if tgt in single_tpl and tgt in used_single and single_tpl[tgt][1] is st:
+                continue   # an opener / closer checked where it is concatenated or emitted
+            stack, err = balance(tokens(tpl))
+            inst = {"template": tpl.replace("\x00", "{}")[:90], "assigned to": tgt}
+            r.instances.append(inst)
+            if err is None and not stack:
+                r.ok()
+            else:
+                r.fail(Finding("R-BALANCE", f"R-BALANCE|schema.write_tree_html|{tpl.replace(chr(0), '{}')[:50]}", f"{f.file}:{n.lineno}",
+                               f"the HTML fragment `{tpl.replace(chr(0), '{}')[:90]}` is not balanced on its own ({err or ('unclosed', stack)}) and is not emitted into a balanced accumulator / concatenation", []))
     return r
 
 
@@ -578,7 +750,7 @@ def rule_defassign(ctx):
     quals = ["schema.format_map_key_value_data_type_conditions", "schema.write_tree_html", tree_builder(prog).qualname,
              "conditions.ConditionLike.get_always_applicable_key_conditions", "conditions.ConditionLike.get_always_applicable_type_like_conditions"]
     for q in quals:
-        f = prog.func(q)
+        f = prog.flat(q)
         issues = possibly_unbound(f, None)
         inst = {"function": q, "possibly unbound": sorted({n for n, _ in issues})}
         r.instances.append(inst)
@@ -650,7 +822,7 @@ def rule_always(ctx):
     prog = ctx.prog
     r = RuleResult("R-ALWAYS", floor=2)
     for q in ("conditions.ConditionLike.get_always_applicable_key_conditions", "conditions.ConditionLike.get_always_applicable_type_like_conditions"):
-        f = prog.func(q)
+        f = prog.flat(q)
         gate = next((n for n in f.node.body if isinstance(n, ast.If)), None)
         inst = {"function": q, "gate": norm(gate.test) if gate else None}
         r.instances.append(inst)
